@@ -147,16 +147,31 @@ Theorem c12_interval_no_deadlock : forall ops,
 Proof. exact interval_no_deadlock. Qed.
 Print Assumptions c12_interval_no_deadlock.
 
-(* cancellation through a stop token (interval generator): exactly the generator's own pending sleep is cancelled *)
-Theorem c12_interval_stop_cancels : forall ops, let s := istate ist0 ops in
-  i_stop s = false ->
-  exists s1 ob, istep false s [3] = IOk s1 ob /\ i_stop s1 = true /\ i_owner s1 = false /\
-    (i_gen s = GSleeping ->
-       (exists t, pending (i_sched s) = [t] /\ e_id t = tag) /\ pending (i_sched s1) = [] /\ i_gen s1 = GDone /\
-       ob = [0; 2; Z.of_nat (length (i_sched s1))]) /\
-    (i_gen s <> GSleeping ->
-       pending (i_sched s) = [] /\ pending (i_sched s1) = [] /\ i_gen s1 = i_gen s /\
-       ob = [0; 0; Z.of_nat (length (i_sched s1))]).
+(* cancellation through a stop token, up to three interval generators with independent stop tokens on one scheduler:
+   pairwise distinct idents => after ANY operation sequence a stop request returns, cancels exactly the signalled
+   generator's own pending sleep (iff it sleeps) and ends that generator; every other generator keeps its state and its
+   pending sleep *)
+Theorem c12_interval_stop_hits_own : forall tg ops g, (forall a b, tg a = tg b -> a = b) ->
+  let s := istate tg ist0 ops in
+  stop_of s g = false ->
+  exists s1 ob, istep' false tg s (IStop g) = IOk s1 ob /\
+    (gen_of s g = GSleeping ->
+       exists t, In t (pending (i_sched s)) /\ e_p t = Some g /\ e_id t = tg g /\
+                 Permutation (pending (i_sched s)) (t :: pending (i_sched s1)) /\ gen_of s1 g = GDone) /\
+    (gen_of s g <> GSleeping -> Permutation (pending (i_sched s)) (pending (i_sched s1)) /\ gen_of s1 g = gen_of s g) /\
+    (forall g', g' <> g -> gen_of s1 g' = gen_of s g' /\ stop_of s1 g' = stop_of s g').
+Proof. exact interval_stop_hits_own. Qed.
+Print Assumptions c12_interval_stop_hits_own.
+
+(* ... instantiated with the idents of the code (`&tag`, a variable of each generator's own coroutine frame) *)
+Theorem c12_interval_stop_cancels : forall ops g, let s := istate tag ist0 ops in
+  stop_of s g = false ->
+  exists s1 ob, istep' false tag s (IStop g) = IOk s1 ob /\
+    (gen_of s g = GSleeping ->
+       exists t, In t (pending (i_sched s)) /\ e_p t = Some g /\ e_id t = tag g /\
+                 Permutation (pending (i_sched s)) (t :: pending (i_sched s1)) /\ gen_of s1 g = GDone) /\
+    (gen_of s g <> GSleeping -> Permutation (pending (i_sched s)) (pending (i_sched s1)) /\ gen_of s1 g = gen_of s g) /\
+    (forall g', g' <> g -> gen_of s1 g' = gen_of s g' /\ stop_of s1 g' = stop_of s g').
 Proof. exact interval_stop_cancels. Qed.
 Print Assumptions c12_interval_stop_cancels.
 
